@@ -32,43 +32,52 @@ structure EnvWF (env : Env) : Prop where
 def CalsTotal (res0 : List (Option Nat × Cal)) : Prop :=
   ∀ p ∈ res0, ∀ t, ∃ v, capR p.2 t = .ok v
 
+theorem EnvWF.toWFE {env : Env} (hw : EnvWF env) : WFE env :=
+  ⟨hw.rootsLt, hw.childLt, hw.predLt, hw.succLt, hw.parentIff, hw.childrenNodup, hw.rootsNodup, hw.rootsTop,
+    hw.forest, hw.sym, hw.dag, hw.noAncDep, hw.flags⟩
+
+theorem CalsTotal.toCalsOK {res0 : List (Option Nat × Cal)} (hc : CalsTotal res0) : CalsOK res0 :=
+  fun p hp t => hc p hp t
+
 theorem C14_forward (env : Env) (f0 : Uid → Fields) (res0 : List (Option Nat × Cal))
-    (hw : EnvWF env) (hc : CalsTotal res0) : c14Outcome (forwardCalc env f0 res0) = true := by
-  sorry
+    (hw : EnvWF env) (hc : CalsTotal res0) : c14Outcome (forwardCalc env f0 res0) = true :=
+  c14Outcome_of_nocrash _ (forwardCalc_nocrash env f0 res0 hw.toWFE hc.toCalsOK)
 
 theorem C14_backward (env : Env) (f0 : Uid → Fields) (res0 : List (Option Nat × Cal))
-    (hw : EnvWF env) (hc : CalsTotal res0) : c14Outcome (backwardCalc env f0 res0) = true := by
-  sorry
+    (hw : EnvWF env) (hc : CalsTotal res0) : c14Outcome (backwardCalc env f0 res0) = true :=
+  c14Outcome_of_nocrash _ (backwardCalc_nocrash env f0 res0 hw.toWFE hc.toCalsOK)
 
 /-- the unschedulable classes are diagnosed: a predecessor outside the WBS without both dates, a fixed end in the
     future (forward), a dependency cycle that closes through the hierarchy ⇒ RuntimeError -/
 theorem C14_diagnoses_forward (env : Env) (f0 : Uid → Fields) (res0 : List (Option Nat × Cal))
     (hw : EnvWF env) (hc : CalsTotal res0) (hd : c14MustDiagnose env f0 true = true) :
-    forwardCalc env f0 res0 = .error .runtime := by
-  sorry
+    forwardCalc env f0 res0 = .error .runtime :=
+  have _ := hc  -- the diagnosis is made by the pre-check, before any calendar is consulted
+  forwardCalc_diagnoses env f0 res0 hw.toWFE hd
 
 theorem C14_diagnoses_backward (env : Env) (f0 : Uid → Fields) (res0 : List (Option Nat × Cal))
     (hw : EnvWF env) (hc : CalsTotal res0) (hd : c14MustDiagnose env f0 false = true) :
-    backwardCalc env f0 res0 = .error .runtime := by
-  sorry
+    backwardCalc env f0 res0 = .error .runtime :=
+  have _ := hc
+  backwardCalc_diagnoses env f0 res0 hw.toWFE hd
 
 /-- a resource that never becomes available within the horizon ⇒ RuntimeError from the availability search
     (forward: nothing on or after the start day; backward: nothing before the end day) -/
 theorem C14_dead_resource_forward (cal : Cal) (used : Int → Rat) (start : Time)
     (hdead : ∀ k : Nat, k < Extracted.maxDays → ∃ c, capR cal (midnight start + (k : Rat)) = .ok c ∧ c ≤ 0) :
-    nearestFwd cal used start = .error .runtime := by
-  sorry
+    nearestFwd cal used start = .error .runtime :=
+  nearestFwd_dead cal used start hdead
 
 theorem C14_dead_resource_backward (cal : Cal) (used : Int → Rat) (start : Time)
     (hdead : ∀ k : Nat, k < Extracted.maxDays → ∃ c, capR cal (midnight start - (k : Rat) - 1) = .ok c ∧ c ≤ 0) :
-    nearestBwd cal used start = .error .runtime := by
-  sorry
+    nearestBwd cal used start = .error .runtime :=
+  nearestBwd_dead cal used start hdead
 
 /-- the DFS pre-check is sound: when it passes, the relation it walked has no cycle through any task it started
     from — the fact the "no unbounded recursion" argument rests on -/
 theorem C14_loopsFrom_sound (next : Uid → List Uid) (fuel : Nat) (starts : List Uid) (val : List Uid)
     (h : starts.foldlM (fun v t => loopsFrom next fuel [] v t) [] = .ok val) :
-    ∀ t ∈ starts, ¬ TC (fun a b => b ∈ next a) t t := by
-  sorry
+    ∀ t ∈ starts, ¬ TC (fun a b => b ∈ next a) t t :=
+  loopsFrom_sound next fuel starts val h
 
 end Pj
